@@ -35,7 +35,9 @@ def st_model(big):
             "chains": st.sampled_from(["blank", "letters"]),
             "nbond_frac": st.sampled_from([0.0, 0.0, 0.5, 1.0, 3.0]),
             "junk_records": st.booleans(),
-            "end_record": st.sampled_from(["END", "END", "ENDMDL"]),
+            # "ENDMDL+END": a single-model file as written by OpenBabel / VMD / PyMOL (two terminator
+            # records in a row); trajectories are often plain concatenations of such files
+            "end_record": st.sampled_from(["END", "END", "ENDMDL+END", "ENDMDL"]),
             "elements": st.sampled_from(["all", "light", "two_letter"]),
         }
     )
@@ -130,7 +132,7 @@ def frame_lines(model):
     if model["junk"]:
         lines.append("TER")
     lines += conect_lines(model)
-    lines.append(model["end"])
+    lines.extend(model["end"].split("+"))
     return lines
 
 
@@ -194,11 +196,13 @@ def labels(spec, model):
         out.append("other_records")
     if model["end"] == "ENDMDL":
         out.append("endmdl")
+    if model["end"] == "ENDMDL+END":
+        out.append("endmdl_and_end")
     return out
 
 
 def core(spec, model):
-    return bool(model["element_column"]) and model["end"] == "END"
+    return bool(model["element_column"]) and model["end"] in ("END", "ENDMDL+END")
 
 
 def selfparse(text):
